@@ -1392,8 +1392,16 @@ func liveReportStall(c LiveCase, x *h.Ctx, live []*liveProc, victim, stuck *live
 			}
 		}
 	}
-	if disagree != "" && h.IsKnownFor("C12", "proposer-cache-lost-on-reload") {
-		x.Fail("proposer-cache-lost-on-reload", "live network of %d validators (%d running, all needed for +2/3) stalls after validator %d was killed and restarted: %s%s", c.N, len(live), victim.idx, disagree, sb.String())
+	if victim != nil && victim.runs > 1 && h.IsKnownFor("C12", "proposer-cache-lost-on-reload") {
+		// while that finding is open every stall that follows a restart is counted under it: with
+		// the evidence when two nodes were seen to expect different proposers for one height/round,
+		// by plausibility otherwise (a restarted validator whose vote is needed and who rejects the
+		// real proposals ends the height; the other checks of C06/C07/C12 judge restarts precisely)
+		if disagree == "" {
+			disagree = "(no height/round was observed on two nodes with different expected proposers; attributed by plausibility)"
+			x.Label("restart-stall-attributed-without-direct-evidence")
+		}
+		x.Fail("proposer-cache-lost-on-reload", "live network of %d validators (%d running) stalls after validator %d was killed and restarted: %s%s", c.N, len(live), victim.idx, disagree, sb.String())
 		return
 	}
 	if c.Txs && c.SameNonce && flooded > 0 {
